@@ -717,41 +717,12 @@ func c17f4Rules(r *an.Run) {
 				bal, dust int // parameter positions
 			}
 			keeps := map[string]keep{}
-			for _, st := range b.Body.List {
-				ifs, ok := st.(*ast.IfStmt)
-				if !ok {
-					continue
-				}
-				id, ok := ifs.Cond.(*ast.Ident)
-				if !ok {
-					continue
-				}
-				be, ok := ast.Unparen(b.UniqueDef(id)).(*ast.BinaryExpr)
-				if !ok {
-					continue
-				}
-				var pi [2]int
-				okp := true
-				for k, e := range []ast.Expr{be.X, be.Y} {
-					pi[k] = -1
-					for i := 0; i < 7; i++ {
-						if an.Param(i)(b, ast.Unparen(e)) {
-							pi[k] = i
-						}
-					}
-					if pi[k] < 0 {
-						okp = false
-					}
-				}
-				if !okp {
-					continue
-				}
-				switch {
-				case pi[0] == 3 && pi[1] == 1:
-					keeps["Local"] = keep{be.Op, 3, 1}
-				case pi[0] == 4 && pi[1] == 2:
-					keeps["Remote"] = keep{be.Op, 4, 2}
-				}
+			ops, _ := c17BuilderKeeps(b)
+			if op, ok := ops["Local"]; ok {
+				keeps["Local"] = keep{op, 3, 1}
+			}
+			if op, ok := ops["Remote"]; ok {
+				keeps["Remote"] = keep{op, 4, 2}
 			}
 			neg := map[token.Token]token.Token{token.GEQ: token.LSS, token.GTR: token.LEQ, token.LEQ: token.GTR, token.LSS: token.GEQ}
 			for _, side := range []struct {
